@@ -19,7 +19,9 @@ RULE = ("Hypothesis draws small files with non-zero position-unique values (1-4 
         "the last lead-in. EVERY cut offset from 4 to len(file) is applied (exhaustive per file) and read eagerly and "
         "lazily: no exception, every channel a prefix of the complete values, at least the values of segments ending at "
         "or before the cut, len == returned, lazy == eager (slice and chunk stream), file_status rule. One evaluation = "
-        "one (file, variant, cut) triple; non-trivial = cut strictly inside a segment (not on a segment boundary).")
+        "one (file, variant, cut) triple; non-trivial = cut strictly inside a segment (not on a segment boundary)."
+        ' A sample of the cuts inside raw data is read once more BY PATH next to the complete index file; a further '
+        "job re-lists stopped channels as 'no data' ahead of the running ones.")
 ASSUMPTIONS = [
     "independent encoder vf/encode.py supplies segment boundaries and data positions",
     "marker variant restricted as the statement says: fixed-width types, strings only in single-chunk segments",
